@@ -1,17 +1,5 @@
-#![allow(dead_code)]
 //! verif-check <ID> <quick|thorough>  |  verif-check <ID> --replay <file>
-mod astnorm;
-mod bast;
-mod bastnorm;
-mod gen;
-mod model;
-mod checks;
-mod drive;
-mod expr;
-mod sem;
-mod runner;
-mod tape;
-mod textgen;
+use verif_check::{checks, drive, runner};
 
 fn main() {
     let args: Vec<String> = std::env::args().skip(1).collect();
